@@ -21,17 +21,17 @@ RULE = ('generated VCFs (1-4 contigs incl. one un-cacheable name, 1-4 samples, p
 ASSUMPTIONS = ['pysam VariantFile / tabix are trusted', 'truth is only demanded on clean sites (every selected sample has a single-base, non-missing genotype, '
                '>= 2 distinct bases over the selected samples, no ignored conversion); elsewhere answers must be a subset of the carriers',
                'positions >= 0 are queried (position -1 is an internal sentinel)']
-MIN_NONTRIVIAL = {'quick': 2000, 'thorough': 30000}
+MIN_NONTRIVIAL = {'quick': 1500, 'thorough': 100000}
 REQUIRED_MONITORS = ['ret:getAllelesAt', 'ret:has_location', 'mode:eager', 'mode:lazy', 'mode:cache_write', 'mode:cache_read',
                      'mode:cache_flag_without_lazy', 'history:cache_from_other_config', 'oracle:clean_sites', 'evicted_contig_revisited', 'tagger:runs', 'oracle:DA_compared']
 SHARD_TIMEOUT = {'quick': 600, 'thorough': 3600}
 
 
 def gen_cases(tier, seed):
-    n = 96 if tier == 'quick' else 800
+    n = 96 if tier == 'quick' else 6000
     cases = [{'i': i, 'seed': seed} for i in range(n)]
     # the allele tag written by the real tagger (-alleles), without cache / writing the cache / reading the cache
-    for j in range(8 if tier == 'quick' else 96):
+    for j in range(8 if tier == 'quick' else 320):
         cases.append({'kind': 'tagger', 'j': j, 'seed': seed})
     return cases
 
